@@ -1187,6 +1187,11 @@ fn lattice2d_rep(c: &mut Case) {
     run_exhaustive(c, seq.iter().map(|&k| grid_point(k)).collect(), grid_queries());
 }
 
+/// parameter builders keep every configured value whatever the order of the `with_*` steps
+fn builders_fam(c: &mut Case) {
+    scverif::builders::case(c, "C13")
+}
+
 fn main() {
     runner::main(Spec {
         property: "C13",
@@ -1201,6 +1206,7 @@ fn main() {
             "an (oracle, signature) class is reported at most once per case (further failures of the same class in the same case are only counted)",
         ],
         families: vec![
+            Family::new("builders", 300, 3000, builders_fam),
             Family::new("blobs", 2500, 40000, blobs),
             Family::new("chains", 2500, 40000, chains),
             Family::new("lattice", 2500, 40000, lattice),
